@@ -42,7 +42,7 @@ func c15TemporalTexts() []struct{ kind, text, class string } {
 		out = append(out, struct{ kind, text, class string }{kind, text, class})
 	}
 	dates := []string{"2020", "0001", "9999", "2020-01", "2020-12", "2020-13", "2020-00", "2020-02-28", "2020-02-29", "2020-02-30", "2021-02-28", "2021-02-29", "2020-04-30", "2020-04-31",
-		"2020-12-31", "2020-12-32", "2020-01-00", "2020-01-15"}
+		"2020-12-31", "2020-12-32", "2020-01-00", "2020-01-15", "1066", "1650-03-04", "1677-09-20", "1677-09-22", "2262-04-11", "2262-04-12", "2300-06-07", "0100-01-01"}
 	for _, d := range dates {
 		add("Date", d, "date")
 		add("DateTime", d+"T", "datetime.dateonly")
